@@ -209,9 +209,26 @@ func (ex *Exec) invoke(fr *Frame, c *ssa.CallCommon, recv Val, args []Val, st *S
 }
 
 type designator struct {
-	heap string
-	root Term // ref or array identity; for elem heaps the array
-	all  bool // every object of this heap
+	heap   string
+	root   Term              // ref or array identity; for elem heaps the array
+	all    bool              // every object of this heap
+	member func(r Term) Term // a set of roots given by a predicate (x[*][*]: the arrays of all elements of x)
+}
+
+// outside: r is not an object named by the designator.
+func (d designator) outside(r Term) Term {
+	if d.member != nil {
+		return Not(d.member(r))
+	}
+	return Neq(r, d.root)
+}
+
+// inside: r is an object named by the designator.
+func (d designator) inside(r Term) Term {
+	if d.member != nil {
+		return d.member(r)
+	}
+	return Eq(r, d.root)
 }
 
 // applyContract uses a callee's contract at a call site.
@@ -284,11 +301,13 @@ func (ex *Exec) applyContract(fr *Frame, c *Contract, names []string, args []Val
 		for _, d := range des {
 			byHeap[d.heap] = append(byHeap[d.heap], d)
 			if ex.track != nil {
-				if d.all {
+				if d.all || d.member != nil {
 					ex.noteWrite(d.heap, ex.vc.fresh("anyroot", SInt))
 				} else {
 					ex.noteWrite(d.heap, d.root)
 				}
+			} else {
+				ex.checkLoopFrames(d.heap, d)
 			}
 		}
 		keep := func(name string, old, nh Term) Term {
@@ -301,7 +320,7 @@ func (ex *Exec) applyContract(fr *Frame, c *Contract, names []string, args []Val
 				if d.all {
 					return True
 				}
-				guard = append(guard, Neq(rv, d.root))
+				guard = append(guard, d.outside(rv))
 			}
 			return Forall([]Bound{{"r?", SInt}}, Implies(And(guard...), Eq(Select(nh, rv), Select(old, rv))))
 		}
@@ -483,6 +502,41 @@ func (ex *Exec) evalDesignator(text string, env *SpecEnv) []designator {
 		for _, l := range leavesOf(t) {
 			n, _ := elemHeap(t, l.Path)
 			out = append(out, designator{heap: n, all: true})
+		}
+		return out
+	}
+	if strings.HasSuffix(text, "[*][*]") {
+		// the elements of every slice held in x: a set of arrays given by a predicate
+		e, err := ParseExpr(strings.TrimSuffix(text, "[*][*]"))
+		if err != nil {
+			ex.specFail("assigns %s: %v", text, err)
+		}
+		v := ex.evalSpec(e, env)
+		sc, ok := v.(Scalar)
+		if !ok {
+			ex.specFail("assigns %s: not a slice of slices", text)
+		}
+		outer, ok := under(sc.Ty).(*types.Slice)
+		if !ok {
+			ex.specFail("assigns %s: not a slice of slices", text)
+		}
+		inner, ok := under(outer.Elem()).(*types.Slice)
+		if !ok {
+			ex.specFail("assigns %s: not a slice of slices", text)
+		}
+		st := env.st
+		x := sc.T
+		ex.vc.counter++
+		cn := fmt.Sprintf("c?%d", ex.vc.counter)
+		member := func(r Term) Term {
+			cv := Var(cn, SInt)
+			el := ex.scalar(ex.load(PtrV{Kind: rootElem, Slice: x, Idx: cv, RootTy: outer.Elem()}, st))
+			return Exists([]Bound{{cn, SInt}}, And(Le(IntLit(0), cv), Lt(cv, SlLen(x)), Eq(r, SlArr(el))))
+		}
+		var out []designator
+		for _, l := range leavesOf(inner.Elem()) {
+			n, _ := elemHeap(inner.Elem(), l.Path)
+			out = append(out, designator{heap: n, member: member})
 		}
 		return out
 	}
